@@ -40,6 +40,7 @@ from fractions import Fraction as F
 import common
 from common import enc, dec, encl, decl, err_kind, close
 from props import c10_f64 as F64
+from props import c10_tr as TR
 
 ID = "C10"
 RULE = ("lag vectors from reflection coefficients (dyadic: exact regime; tenths |k|<=9/10: float regime), "
@@ -64,9 +65,29 @@ RULE = ("lag vectors from reflection coefficients (dyadic: exact regime; tenths 
         "dyadic / decaying / magnitudes 1e-6..1e6 / sines / geometric), order None, below, at and beyond len: compared "
         "BIT FOR BIT with the binary64 run of the model")
 TRUSTED = [
+    "source translator harness/props/c10_tr.py (ast -> lean/ALV/Gen/C10Src.lean, rewritten on every check): the bodies of "
+    "acorr, lag_matrix, toeplitz, levinson_durbin (+ closure inner), lpc.kautocor, lpc.kcovar (+ closure inner) and the "
+    "@lpc.strategy names are regenerated from the text of the repo under test and PROVED equal to the model functions "
+    "(Props.C10 src_*_is_model).  Trusted: (i) the semantics the translator assumes for its Python subset - ints are "
+    "unbounded (Lean Int), xrange of a non-positive length is empty, a comprehension / generator expression is map / "
+    "flatMap in source order, builtin sum is the left fold from 0, enumerate(l) is the pairs (i, l[i]), `for` is a left "
+    "fold of its body over the loop-carried variables, `while True` with one `if m >= bound: ..; return` exit and a last "
+    "`m += 1` is a recursion that cannot make more than bound - m + 1 passes, `x / y` raises ZeroDivisionError exactly "
+    "when y == 0 (replaced by the exception of the enclosing `except ZeroDivisionError: raise E`), a closure reads its "
+    "free variables at call time, l[i] with i < 0 counts from the end; a subscript out of range reads 0 (IndexError is "
+    "not in the expression language: the theorems carry the hypothesis that excludes the one reachable case, which the "
+    "model has by hand); the messages of exceptions, comments and docstrings are dropped; (ii) the VOCABULARY mapping "
+    "of lean/ALV/Model/C10Py.lean: ZFilter(1), z ** -m, A(1 / z) * z ** -m, A -= c * B, A += c * B, .numlist, "
+    "z ** -e - sum(g[q] * B[q] ..), Stream(x).append(0).take(n) are the coefficient-list operations of the model "
+    "(ZFilter / Poly / Stream are classes outside the slice); (iii) the parameter kinds (first parameter a list of "
+    "numbers, a parameter with default None an optional int).  The translator is cross-checked on every run by the "
+    "extra checks translator-selftest (12 deliberate edits of the source text must change the translation or be "
+    "refused, 3 harmless ones must not) and translator-reproduces-committed-file, and by the differential tie, which "
+    "runs the same model functions the src_* theorems name",
     "hand-written Lean model ALV/Model/C10.lean of lazy_lpc.toeplitz/levinson_durbin/lpc.kautocor/lpc.kcovar and "
-    "lazy_analysis.acorr/lag_matrix (modelled, not verified: ZFilter/Poly arithmetic is taken as coefficient-wise "
-    "arithmetic on numlists without trailing zeros; Stream.append/take for the zero extension)",
+    "lazy_analysis.acorr/lag_matrix: since the translator round it is tied to the source by the src_*_is_model theorems "
+    "(not only by sampling); still modelled, not verified: ZFilter/Poly arithmetic is taken as coefficient-wise "
+    "arithmetic on numlists without trailing zeros; Stream.append/take for the zero extension",
     "hand-written Lean model ALV/Model/C10Call.lean of the call layer: the spellings of order / max_lag (omitted, None, "
     "int of any sign, non-int number: which comparison / integer context raises what, Stream.take rounding a float and "
     "handing a Fraction to islice), the StrategyDict names and the default strategy's dispatch on order < 100 / "
@@ -125,14 +146,17 @@ MANIFEST = {
             "Lean spec on the coefficients the impl returns; on Python floats the generic model (sum = CPython's compensated "
             "float loop, a parameter proved to be the plain sum over exact operations) is run on binary64 and compared "
             "bit for bit.",
-    "note": "Trusted: Lean kernel + propext/Classical.choice/Quot.sound, the Python harness, the hand-written models "
+    "note": "Trusted: Lean kernel + propext/Classical.choice/Quot.sound, the Python harness, the translator's Python-subset "
+            "semantics and filter vocabulary (Model/C10Py.lean), the hand-written models "
             "(ZFilter/Poly arithmetic taken as coefficient-wise arithmetic on trimmed coefficient lists; the call layer). "
             "numpy is absent: lpc.nautocor / lpc.covar bodies are neither modelled nor run.  Float rounding is outside "
             "the theorems; float Levinson runs are compared under a conditioning-aware empirical bound, those whose "
             "bound exceeds 1e-2 (and kcovar runs within 1e-4 of an exit) are only counted "
             "(histograms float_ill_conditioned_model_comparison_skipped, near_singular_*).",
     "technique": "Lean 4 machine-checked proof (loop invariants by induction on the order, Finset sums) over an "
-                 "executable model + differential correspondence and spec evaluation on the implementation's output",
+                 "executable model + source translator harness/props/c10_tr.py (function bodies read with ast and "
+                 "regenerated as Lean definitions lean/ALV/Gen/C10Src.lean on every run, proved equal to the model: "
+                 "src_*_is_model) + differential correspondence and spec evaluation on the implementation's output",
 }
 TOL = 1e-9
 
@@ -2108,6 +2132,13 @@ def _neighbours_history(c):
             yield dict(c, calls=calls + [dict(extra, arg=0, scribble=False)])
 
 
+def regenerate(eng=None):
+    """translator: lean/ALV/Gen/C10Src.lean from the function bodies of the repo under test (props/c10_tr.py)"""
+    return TR.regenerate(eng)
+
+
 def extra_checks(eng):
     for r in F64.extra_checks(eng):
+        yield r
+    for r in TR.extra_checks(eng):
         yield r
